@@ -198,7 +198,9 @@ def _select_tag_expression_parser4auto(text_or_seq):
 
     text = text.replace("(", " ( ").replace(")", " ) ")
     words = text.split()
-    contains_v1_prefixes = _any_word_starts_with(words, TAG_EXPRESSION_V1_NOT_PREFIXES)
+    # -- NOTE: A v1 NOT-PREFIX may also occur inside an OR-group, like: "a,-b"
+    v1_tags = [tag for word in words for tag in word.split(",")]
+    contains_v1_prefixes = _any_word_starts_with(v1_tags, TAG_EXPRESSION_V1_NOT_PREFIXES)
     contains_v1_keywords = (_any_word_contains_keyword(words, TAG_EXPRESSION_V1_OTHER_KEYWORDS) or
                             # any((k in text) for k in TAG_EXPRESSION_V1_OTHER_KEYWORDS) or
                             contains_v1_prefixes)
